@@ -100,12 +100,10 @@ def _walk_generate(rng, tier):
         c = emit(m, CONFIGS[k % 4], ["mutant", "mutant:grammar"], note="mutant of " + valid[j][0])
         if c:
             yield c
-    # 5. planted graphs (sample; C14 runs the full set)
-    planted = list(H.planted(rng, "quick"))
-    must = [p for p in planted if p[0].split(":")[0] in ("deep", "valid") or (p[0].startswith("cycle:") and "." not in p[0].split(":")[1])
-            or p[0].startswith("num:objstm-index")]
-    rest = [p for p in planted if p not in must]
-    pick = must + rng.sample(rest, min(len(rest), 160 if quick else 2500))
+    # 5. planted graphs: the whole single-style set (≈ 4 400 files, a few seconds; C14's thorough tier adds the other cross-reference styles).
+    #    These are the inputs that reach the numeric sites repaired by other areas (CID /W, crypt lengths, page counts, predictor geometry,
+    #    object-stream indices around /N, xref-stream widths), whose theorems Properties/C01.v / C14.v import.
+    pick = list(H.planted(rng, "quick"))
     for i, (tag, data) in enumerate(pick):
         c = emit(data, CONFIGS[i % 4] if tag.split(":")[0] != "deep" else CONFIGS[(i % 2) * 2 + 1], ["planted", "planted:" + tag.split(":")[0]], note=tag)
         if c:
@@ -148,13 +146,30 @@ def _lines(result):
     return [l for l in det.split("\n") if l] or [_status(result)]
 
 
-def _match(line):
-    """finding id for one detail line (`site@call` | `ABORT …` | `TIMEOUT …`)"""
+def _msgs(result):
+    """panic site -> message (field 4 of a walk result)"""
+    out = {}
+    if result[0] == "OK" and len(result[1]) > 4:
+        for l in result[1][4].decode("utf-8", "replace").split("\n"):
+            if "\t" in l:
+                k, v = l.split("\t", 1)
+                out.setdefault(k, v)
+    return out
+
+
+def _match(line, msgs=None):
+    """finding id for one detail line (`site@call` | `ABORT …` | `TIMEOUT …`).  A panic is attributed by source FILE and
+    panic MESSAGE (entries `panics`: {"file", "msg": [substrings]}), not by line number: an edit that only moves lines
+    must not turn a listed panic into an unlisted one; a different kind of panic in the same file is still unlisted."""
     for f in sorted(_findings(), key=lambda f: bool(f.get("after_panic"))):
         if "@" in line and not line.startswith(("ABORT", "TIMEOUT")):
             site = line.split("@", 1)[0]
             if site in f.get("sites", []):
                 return f["id"]
+            msg = (msgs or {}).get(site, "")
+            for pz in f.get("panics", []):
+                if site.rsplit(":", 1)[0] == pz["file"] and all(m in msg for m in pz.get("msg", [])) and pz.get("msg"):
+                    return f["id"]
         else:
             for pat in f.get("terminal", []):
                 if re.search(pat, line):
@@ -166,7 +181,8 @@ def classify(case, impl, model):
     if case.mode != "walk":
         return None           # front-end modes: no panic is listed any more (C01-a, RunLength, is repaired)
     lines = _lines(impl)
-    ids = [_match(l) for l in lines]
+    msgs = _msgs(impl)
+    ids = [_match(l, msgs) for l in lines]
     # a hang that follows a caught panic is attributable (to the entry marked after_panic) only if a panic precedes it
     panicked = any("@" in l and not l.startswith(("ABORT", "TIMEOUT")) for l in lines)
     for l, i in zip(lines, ids):
